@@ -25,6 +25,7 @@ def check(ctx):
     ctx.rule('C20.U', 'no read and consume of one object in unsequenced operands')
     ctx.rule('C20.V', 'no object is used after it was moved from')
     ctx.rule('C20.K', 'ordered and hashed maps identify the same AnyId keys')
+    ctx.rule('C20.N', 'no user code runs while a library mutex is held (it would behave differently with the no-op mutex of SingleThreading)')
     ctx.rule('C20.I', 'constructors leave no scalar member indeterminate')
     ctx.rule('C20.M', 'witness units type-check with g++ and clang++')
     ctx.rule('C20.P', 'SingleThreading policy matches the std::atomic / mutex interface conventions')
@@ -49,6 +50,7 @@ def check(ctx):
                        where=f.nloc(later[0]['site']['consumer']) if later else None)
         check_init(ctx, tu)
         check_policy(ctx, tu)
+        check_user_code_under_mutex(ctx, tu)
         # map-kind independence for AnyId keys: an ordered map identifies keys by <-incomparability, a hashed map by ==; the two
         # partitions coincide exactly when "incomparable under < <=> ==" (the C18 law, evaluated over all orderings of three ids)
         from .c18 import anyid_pairs, check_pair
@@ -56,9 +58,42 @@ def check(ctx):
             check_pair(ctx, tu, eqf, ltf, storage, rule='C20.K', only=('incomparable under < exactly when ==',))
     ctx.require(nfun >= 20, 'C20.U: fewer than 20 functions with consuming sites were analysed (%d)' % nfun)
     ctx.require_min('C20.I', 30)
+    ctx.require_min('C20.N', 10)
     ctx.require_min('C20.K', 1)
     ctx.require_min('C20.P', 6)
     check_matrix(ctx)
+
+
+def check_user_code_under_mutex(ctx, tu):
+    """Threading-policy independence: SingleThreading's mutex is a no-op, std::mutex and SpinLock are not recursive. User code (a listener,
+    filter, predicate, policy callable, or the destructor of a queued event's arguments) that runs while a library mutex is held may call
+    back into the library: with SingleThreading that works, with a real mutex the same single-threaded program deadlocks on itself."""
+    from ..effects import classify_callee, USER_INVOKE
+    from .qcommon import TUInfo, CONTAINER_CALLEES, SLOT_CLASSES
+    info = TUInfo(tu)
+    for f in tu.fns:
+        if f.outermost().skey.startswith('OrderedQueueList::'):
+            continue        # the ordering comparator is part of the container (tolerated by design, C06.N)
+        for n in f.nodes:
+            if not (f.is_call(n) or f.is_construct(n)):
+                continue
+            ck = f.callee_key(n) or ''
+            if ck.startswith(CONTAINER_CALLEES):
+                continue
+            cal = f.callee(n) or {}
+            what = None
+            if cal.get('name') in ('clear', 'set') and short(cal.get('cls') or '').split('::')[-1] in SLOT_CLASSES:
+                what = 'destruction / construction of queued arguments (%s)' % cal['name']
+            else:
+                eff, desc = classify_callee(f, n)
+                if USER_INVOKE in eff:
+                    what = desc
+            if what is None:
+                continue
+            held = info.held_names(f, f.pos(n), must=False) - {None}
+            ctx.ob('C20.N', f, 'user code runs with no library mutex held', not held,
+                   detail='%s at %s runs while %s may be held: re-entrant use works with SingleThreading and deadlocks with std::mutex / SpinLock'
+                          % (what, f.nloc(n), ', '.join(sorted(held))), where=f.nloc(n), key_detail='user code under mutex')
 
 
 def check_init(ctx, tu, rule='C20.I', only=None):
